@@ -176,7 +176,7 @@ class Prop(PropBase):
         if op == "signal_transform":
             return {"k": rng.choice([2.0, -0.5, 3.0]), "fn": rng.choice(["same", "complex", "widen"])}
         if op == "container":
-            return {"method": rng.choice(["compute", "persist", "to_dask_array", "rechunk", "rechunk_explicit"])}
+            return {"method": rng.choice(["compute", "persist", "to_dask_array", "rechunk", "rechunk_explicit"]), "empty": rng.random() < 0.25}
         return {}
 
     # ------------------------------------------------------------------ real code
@@ -319,6 +319,8 @@ class Prop(PropBase):
             return out
         if c["op"] == "container":
             m = c["args"]["method"]
+            if c["args"].get("empty"):
+                z, zd = z[3:3], zd[3:3]         # the container methods on a signal without samples
             for name, s in (("np", z), ("dask", zd)):
                 if m == "rechunk_explicit":
                     r = s.rechunk((-1,) + (1,) * (s.ndim - 1))
